@@ -521,23 +521,74 @@ def kill_on_drop(ctx, rule="R04.5"):
 
 # ------------------------------------------------------------------------------------------------
 # C06
+def _deadline_value(ctx, f, node, grace):
+    """how a Timer constructor computes `until` (helpers spliced, lets read through):
+       'plain'   Instant::now() + grace                                   (panics when the sum is not representable)
+       'checked' Instant::now().checked_add(grace) with a fallback of now + a constant of at least a year
+       None      anything else"""
+    import re
+    vals = set()
+    with pathx.reading_through(node):
+        for p_ in pathx.Enum().paths(node):
+            vals.add(pathx.desc_on(p_, pathx.value_of(node)).replace("^", ""))
+    if vals == {"Add::add(Instant::now(), %s)" % grace}:
+        return "plain", vals
+    m = None
+    if len(vals) == 1:
+        m = re.match(r"^Option::unwrap_or(_else)?\(Instant::checked_add\(Instant::now\(\), %s\), (.*)\)$" % re.escape(grace), next(iter(vals)))
+    if not m:
+        return None, vals
+    fb = m.group(2)
+    if m.group(1):
+        cl = [x for x in thir.walk(node) if isinstance(x, dict) and x.get("k") == "closure"]
+        cf = ctx.facts.find_fn(cl[0]["def"]) if len(cl) == 1 else None
+        if cf is None:
+            return None, vals
+        crt = thir.root(cf)
+        with pathx.reading_through(crt):
+            fbs = {pathx.desc_on(p_, pathx.value_of(crt)).replace("^", "") for p_ in pathx.Enum().paths(crt)}
+        if len(fbs) != 1:
+            return None, vals | fbs
+        fb = next(iter(fbs))
+    m2 = re.match(r"^Add::add\((?:now|Instant::now\(\)), Duration::from_secs\(([0-9_ Mul]+)\)\)$", fb)
+    if not m2:
+        return None, vals | {fb}
+    secs = 1
+    for part in m2.group(1).split("Mul"):
+        secs *= int(part.strip().replace("_", ""))
+    if secs < 365 * 86400 or secs > 2 ** 40:
+        # too near: the forced stop would fire although the requested grace has not elapsed; too far: the fallback itself overflows
+        return None, vals | {fb}
+    return "checked", vals | {fb}
+
+
 def timer_summaries(ctx, rule="R06.2"):
     T = SUP + "::job::priority::Timer"
     for name, is_restart in (("stop", False), ("restart", True)):
         f = ctx.anchor_fn(rule, T + "::" + name)
-        v = thir.expr_value(thir.root(f))
+        rt = thir.peel(thir.root(f))
+        v = thir.expr_value(rt)
         ok = v[0] == "v" and v[2] == "Timer"
         det = ""
+        how = None
         if ok:
             fs = v[3]
-            u = fs.get("until", ("",))
-            u_ok = (u[0] == "call" and u[1].endswith("ops::arith::Add::add") and len(u[2]) == 2 and u[2][0][0] == "call"
-                    and u[2][0][1].endswith("Instant::now") and u[2][1] == ("var", f.thir["params"][0]["pat"]["n"]))
-            ok = u_ok and fs.get("done") == ("var", f.thir["params"][1]["pat"]["n"]) and fs.get("is_restart") == ("b", is_restart)
-            det = str(fs)
+            grace = f.thir["params"][0]["pat"]["n"]
+            adt = next((x for x in thir.walk(rt) if isinstance(x, dict) and x.get("k") == "adt"), None)
+            un = next((x for n_, x in (adt["f"] if adt else []) if n_ == "until"), None)
+            how, vals = _deadline_value(ctx, f, un, grace) if un is not None else (None, set())
+            ok = how is not None and fs.get("done") == ("var", f.thir["params"][1]["pat"]["n"]) and fs.get("is_restart") == ("b", is_restart)
+            det = "until: %s; %s" % (sorted(vals), {k_: v_ for k_, v_ in fs.items() if k_ != "until"})
         ctx.require(ok, rule, "timer-" + name, "Timer::%s(grace, done) = {until: now + grace, done, is_restart: %s}" % (name, str(is_restart).lower()),
                     f.loc(f.line), detail=det,
                     fail="Timer::%s no longer sets until = Instant::now() + grace with the given flag and is_restart = %s" % (name, is_restart))
+        if ok:
+            ctx.require(how == "checked", rule, "timer-%s-no-overflow" % name,
+                        "the deadline is computed with checked_add and falls back to a far-future instant: a grace period too long for an Instant "
+                        "(Duration::MAX = never force-kill) does not panic the job task", f.loc(f.line), detail=det,
+                        fail="Timer::%s computes Instant::now() + grace with the panicking operator: a grace period that does not fit an Instant "
+                             "(Duration::MAX) panics the job task after the signal was sent - the child is killed by the dropped handle before the "
+                             "grace period and no ticket of the job resolves" % name)
     f = ctx.anchor_fn(rule, T + "::is_past")
     v = thir.expr_value(thir.root(f))
     ok = (v[0] == "call" and v[1].endswith("cmp::PartialOrd::le") and len(v[2]) == 2 and v[2][0] == ("field", ("var", "self"), "until")
@@ -1475,3 +1526,63 @@ def flag_identity(ctx, B, rule):
                     body.loc(body.line), detail=str(refs[:3]),
                     fail="the %s refers to the job-gone flag (%s): a `done.raise()` there resolves to the task's own end-of-life flag, not to the flag of the control being handled - "
                          "the job counts as dead while it lives, every ticket resolves before its control ran, and the library creates a second job for the same Id" % (label, refs[:2]))
+
+
+# ------------------------------------------------------------------------------------------------
+# shared by C06 / C07 / C01: Instant arithmetic with the panicking operators
+def _compile_time_value(f, op, depth=0):
+    """the operand is a literal / const, or arithmetic over such (`86400 * 365 * 30`)"""
+    if op.is_const():
+        return True
+    if depth > 8:
+        return False
+    os_ = list(origins(f, op))
+    if not os_:
+        return False
+    for o in os_:
+        if o.kind == "const":
+            continue
+        if o.kind == "op":
+            st = f.blocks[o.data[0]].stmts[o.data[1]]
+            if st.rv is not None and st.rv.kind in ("bin", "un", "cast") and all(_compile_time_value(f, x, depth + 1) for x in st.rv.ops):
+                continue
+        return False
+    return True
+
+
+def no_panicking_instant_arith(ctx, rule, crates=("watchexec", "watchexec_supervisor", "watchexec_cli")):
+    """`Instant + Duration` / `Instant - Duration` (and the assigning forms) panic when the result is not representable. Every such call in
+    the production code of the given crates must have a compile-time constant duration: a duration that comes from the user (grace period,
+    throttle, poll interval, delay) may be Duration::MAX. Expected count of offending sites: zero; the number of call sites examined is
+    reported, and the fallback of Timer's deadline is the positive example that must be found (a constant operand)."""
+    sites = []
+    bad = []
+    for f in ctx.facts.fn_by_def.values():
+        if f.crate.name not in crates:
+            continue
+        for bi, t in f.calls():
+            full = t.callee.full or ""
+            if not t.callee.is_("ops::arith::Add::add", "ops::arith::Sub::sub", "ops::arith::AddAssign::add_assign", "ops::arith::SubAssign::sub_assign"):
+                continue
+            if not re.match(r"^<(tokio::time::instant::Instant|std::time::Instant) as core::ops::arith::\w+<core::time::Duration>>::", full):
+                continue
+            sites.append((f, t))
+            const = True
+            for o in origins(f, t.args[1]):
+                if o.kind == "const":
+                    continue
+                if o.kind == "call" and not o.proj:
+                    ct = f.blocks[o.data].term
+                    if ct.callee.is_("core::time::Duration::from_secs", "core::time::Duration::from_millis", "core::time::Duration::from_micros",
+                                     "core::time::Duration::from_nanos", "core::time::Duration::new") and all(_compile_time_value(f, a) for a in ct.args):
+                        continue
+                const = False
+            if not const:
+                bad.append((f, t))
+    ctx.floor(rule, "Instant +/- Duration call sites examined (the far-future fallback of the grace timer is one)", len(sites), 1)
+    for f, t in bad:
+        ctx.violation(rule, "instant-arith-may-panic:%s" % strip_generics(f.def_).split("::{closure")[0].split("::")[-1],
+                      "`Instant` arithmetic with the panicking operator on a duration that is not a compile-time constant: a user-supplied "
+                      "duration such as Duration::MAX panics this task (%s)" % (t.callee.full or ""), f.loc(t.line))
+    if not bad:
+        ctx.ok(rule, "instant-arith-checked", "no Instant +/- Duration with a run-time duration outside checked_add / saturating forms (%d constant sites)" % len(sites))
